@@ -5,7 +5,7 @@
 set -e
 cd "$(dirname "$0")/.."
 export GOFLAGS=-mod=mod GOPROXY=off GOSUMDB=off GOTOOLCHAIN=local
-cp /repo/go.sum harness/go.sum
+python3 tools/mkgomod.py /repo
 T=$(mktemp -d)
 trap 'rm -rf "$T"' EXIT
 (cd harness && go build -o "$T/mkoverlay" ./cmd/mkoverlay)
